@@ -318,12 +318,12 @@ class C05(Spec):
     prop = "C05"
     coq_targets = ["Props/C05.vo"]
     prop_module = "Props.C05"
-    theorems = ['C05_beyond_transmitted_is_absent_partial', 'C05_no_extension_is_absent_partial', 'C05_skip_nothing_partial', 'C05_skip_absent_step_partial', 'C05_skip_present_step_partial', 'C05_forward', 'C05_backward', 'C05_sequence_compat', 'C05_sentinel_forward', 'C05_sentinel_backward']
+    theorems = ['C05_beyond_transmitted_is_absent_partial', 'C05_no_extension_is_absent_partial', 'C05_skip_nothing_partial', 'C05_skip_absent_step_partial', 'C05_skip_present_step_partial', 'C05_forward', 'C05_backward', 'C05_sequence_compat', 'C05_sentinel_forward', 'C05_sentinel_backward', 'C05_extends_is_deep', 'C05_extends_deep_trans', 'C05_forward_deep', 'C05_backward_deep', 'C05_sentinel_forward_deep', 'C05_sentinel_backward_deep']
     builds = [("default", "dev"), ("default", "release")]
     timeout_per_chunk = 600
     xcheck_n = 60
     level_text = ("Forward/backward compatibility statements over the L2 reader model for schema pairs related by appended extension "
-                  "additions / alternatives / items; model tied to the crate by differential execution of write-under-A / read-under-B with a "
+                  "additions / alternatives / items, at top level and at any nesting depth (congruence relation extends_deep: components of SEQUENCE/SET incl. open types, SEQUENCE OF elements, CHOICE alternatives, several at once); model tied to the crate by differential execution of write-under-A / read-under-B with a "
                   "trailing sentinel, judged by an oracle computed from the pair.")
     rule = ("pairs (V1, V2 = V1 + k additions), k = 1..8 (quick 1..4), addition encodings of 1..300 octets (covering 127/128 and the high bits of the "
             "first length octet), followed by a sentinel; both directions; CHOICE and ENUMERATED extension pairs. "
